@@ -108,6 +108,7 @@ class Frame:
         self.static = dict(params)  # python name -> AV fixed for the thread (constants / args)
         self.parent = parent
         self.retvar = None
+        self.tuples = {}          # python name of a tuple-valued local -> list of component state var keys
 
 
 class Thread:
@@ -268,7 +269,11 @@ class Machine:
             if k.kind in ("obj", "const"):
                 frame.static[p] = k
             elif k.kind == "tuple":
-                raise TranslationError("tuple argument in inlined call %s" % qual)
+                if not (k.items and all(i.kind in ("ref", "set", "bool", "int") for i in k.items)):
+                    raise TranslationError("tuple argument with members of kind %r in inlined call %s" % ([i.kind for i in k.items], qual))
+                self.local_key_typed(thread, frame, p, ("tuple", [(i.kind, i.cls if i.kind in ("ref", "set") else None) for i in k.items]))
+                for i, ck in enumerate(frame.tuples[p]):
+                    copies.append((ck, ("tuplepart", spec, i)))
             else:
                 key = self.local_key_typed(thread, frame, p, (k.kind, k.cls))
                 copies.append((key, spec))
@@ -303,6 +308,8 @@ class Machine:
             typ = (k.kind, k.cls)
         elif k.kind in ("bool", "int"):
             typ = (k.kind, None)
+        elif k.kind == "tuple" and k.items and all(i.kind in ("ref", "set", "bool", "int") for i in k.items):
+            typ = ("tuple", [(i.kind, i.cls if i.kind in ("ref", "set") else None) for i in k.items])
         else:
             return False
         self.local_key_typed(thread, frame, name, typ)
@@ -310,6 +317,15 @@ class Machine:
 
     def local_key_typed(self, thread, frame, name, typ):
         key = "%s.f%d.%s" % (thread.name, frame.fid, name)
+        if typ[0] == "tuple":
+            # a tuple-valued local is kept component-wise
+            keys = []
+            for i, comp in enumerate(typ[1]):
+                ck = "%s#%d" % (key, i)
+                thread.locals[ck] = comp
+                keys.append(ck)
+            frame.tuples[name] = keys
+            return key
         thread.locals[key] = typ
         frame.locals[name] = key
         return key
@@ -377,6 +393,14 @@ class Machine:
                     key = self.local_key(thread, frame, st.targets[0].id)
                     return self.build_call(thread, cls, method, ("ast", recv_ast, frame), [("ast", a, frame) for a in st.value.args], nxt,
                                            frame, key, handlers, locks)
+            if isinstance(st, ast.Assign) and len(st.targets) == 1 and isinstance(st.targets[0], ast.Subscript):
+                # container[key] = value on a modelled class whose __setitem__ is read from the real source
+                fake = ast.Call(func=ast.Attribute(value=st.targets[0].value, attr="__setitem__", ctx=ast.Load()), args=[], keywords=[])
+                tgt = self.inline_target(fake, frame) if any(m == "__setitem__" for (_, m) in dom.inline) else None
+                if tgt is not None:
+                    cls, method, recv_ast = tgt
+                    return self.build_call(thread, cls, method, ("ast", recv_ast, frame),
+                                           [("ast", st.targets[0].slice, frame), ("ast", st.value, frame)], nxt, frame, None, handlers, locks)
             if isinstance(st, ast.Pass):
                 return nxt
             if isinstance(st, ast.Assign):
@@ -456,6 +480,13 @@ class Machine:
             return jumps["continue"]
         if isinstance(st, ast.Return) and st.value is None:
             return jumps["return"]
+        if isinstance(st, ast.Return) and isinstance(st.value, ast.Call):
+            tgt = self.inline_target(st.value, frame)
+            if tgt is not None:
+                # return self.helper(...): the helper's result becomes this function's result
+                cls, method, recv_ast = tgt
+                return self.build_call(thread, cls, method, ("ast", recv_ast, frame), [("ast", a, frame) for a in st.value.args],
+                                       jumps["return"], frame, frame.retvar, handlers, locks)
         if isinstance(st, ast.Return):
             n = self.add_node(thread, "ret", st, frame, func)
             n.succ = self._release_all(thread, frame, jumps["return"], locks if frame.parent is not None or True else [], func, st, jumps)
@@ -528,7 +559,7 @@ class Machine:
 
     def predeclare(self, thread, frame, target):
         if isinstance(target, ast.Name):
-            if target.id not in frame.locals:
+            if target.id not in frame.locals and target.id not in frame.tuples:
                 self.local_key(thread, frame, target.id)
         elif isinstance(target, (ast.Tuple, ast.List)):
             for e in target.elts:
@@ -656,6 +687,8 @@ class Evaluator:
         if isinstance(node, ast.Name):
             if node.id == "self":
                 return self.resolve_arg(frame.self_val, ctx)
+            if node.id in frame.tuples:
+                return AV("tuple", items=[AV(ctx.thread.locals[ck][0], ctx.get(ck), ctx.thread.locals[ck][1]) for ck in frame.tuples[node.id]])
             if node.id in frame.locals:
                 key = frame.locals[node.id]
                 kind, cls = ctx.thread.locals[key]
@@ -688,6 +721,9 @@ class Evaluator:
             return A_bool(res)
         if isinstance(node, ast.BoolOp):
             vals = [self.ev(v, ctx, frame) for v in node.values]
+            if isinstance(node.op, ast.Or) and len(vals) == 2 and vals[0].kind in ("ref", "set") and vals[1].kind == "const" \
+                    and vals[1].term in (None, "emptyset"):
+                return vals[0]      # `x or <empty default>`: abstractly "nothing" is one value (the None reference / the empty set)
             ts = [truthy(v, dom) for v in vals]
             # only the truth value is used in the supported contexts
             return A_bool(z3.And(*ts) if isinstance(node.op, ast.And) else z3.Or(*ts))
@@ -699,14 +735,46 @@ class Evaluator:
                 return A_int(a.term + b.term if isinstance(node.op, ast.Add) else a.term - b.term)
             if a.kind == "const" and isinstance(a.term, str) or b.kind == "const" and isinstance(b.term, str):
                 return A_const("<text>")
+        if isinstance(node, ast.List) and not node.elts:
+            return A_const("emptyset")
         if isinstance(node, ast.Tuple):
             return AV("tuple", items=[self.ev(e, ctx, frame) for e in node.elts])
         if isinstance(node, ast.IfExp):
             c = truthy(self.ev(node.test, ctx, frame), dom)
             a, b = self.ev(node.body, ctx, frame), self.ev(node.orelse, ctx, frame)
             return self.mux(c, a, b)
+        if isinstance(node, ast.ListComp) and len(node.generators) == 1 and not node.generators[0].is_async \
+                and isinstance(node.generators[0].target, ast.Name) and isinstance(node.elt, ast.Name) \
+                and node.elt.id == node.generators[0].target.id:
+            # [x for x in S if cond(x)] over a modelled set: the subset of the members for which the conditions hold
+            gen = node.generators[0]
+            src = self.ev(gen.iter, ctx, frame)
+            if src.kind != "set":
+                raise TranslationError("list comprehension over %r" % (src,))
+            var = gen.target.id
+            saved = frame.static.get(var)
+            had_local = frame.locals.pop(var, None)
+            mask = bv(0)
+            try:
+                for i in range(dom.count(src.cls)):
+                    frame.static[var] = AV("ref", bv(i), src.cls)
+                    keep = z3.Extract(i, i, src.term) == z3.BitVecVal(1, 1)
+                    for cond in gen.ifs:
+                        keep = z3.And(keep, truthy(self.ev(cond, ctx, frame), dom))
+                    mask = mask | z3.If(keep, bv(1 << i), bv(0))
+            finally:
+                if saved is None:
+                    frame.static.pop(var, None)
+                else:
+                    frame.static[var] = saved
+                if had_local is not None:
+                    frame.locals[var] = had_local
+            return AV("set", mask, src.cls)
         if isinstance(node, ast.Subscript):
             base = self.ev(node.value, ctx, frame)
+            if base.kind == "tuple" and isinstance(node.slice, ast.Constant) and isinstance(node.slice.value, int) \
+                    and -len(base.items) <= node.slice.value < len(base.items):
+                return base.items[node.slice.value]
             idx = self.ev(node.slice, ctx, frame)
             h = dom.methods.get((base.kind if base.kind != "obj" else base.cls, "__getitem__"))
             if h is None:
@@ -882,6 +950,14 @@ class Evaluator:
 
     # ---- statements ----
     def assign(self, target, val, ctx, frame):
+        if isinstance(target, ast.Name) and target.id in frame.tuples:
+            keys = frame.tuples[target.id]
+            if val.kind != "tuple" or len(val.items) != len(keys):
+                raise TranslationError("tuple local %s gets %r" % (target.id, val))
+            for ck, item in zip(keys, val.items):
+                kind, cls = ctx.thread.locals[ck]
+                ctx.set(ck, self.coerce(item, kind, cls).term)
+            return
         if isinstance(target, ast.Name):
             key = frame.locals[target.id]
             kind, cls = ctx.thread.locals[key]
@@ -1043,19 +1119,34 @@ class Encoder:
             elif k == "enter":
                 copies, parent = node.info
                 for key, spec in copies:
+                    part = None
+                    if not isinstance(spec, AV) and spec[0] == "tuplepart":
+                        part = spec[2]
+                        spec = spec[1]
                     if isinstance(spec, AV):
                         val = spec
                     elif spec[0] == "dyn":
                         val = spec[1](ctx)
                     else:
                         val = ev.ev(spec[1], ctx, spec[2] if len(spec) > 2 else parent)
+                    if part is not None:
+                        val = val.items[part]
                     kind, cls = t.locals[key]
                     ctx.set(key, ev.coerce(val, kind, cls).term)
                 nxt = bv(node.succ)
             elif k == "ret":
                 st = node.ast
                 fr = node.frame
-                if st.value is not None and fr.retvar is not None:
+                if st.value is not None and fr.retvar is not None and fr.retvar not in t.locals and (fr.retvar + "#0") in t.locals:
+                    # the caller keeps the result in a tuple-valued local
+                    val = ev.ev(st.value, ctx, fr)
+                    comps = [k2 for k2 in t.locals if k2.startswith(fr.retvar + "#")]
+                    if val.kind != "tuple" or len(val.items) != len(comps):
+                        raise TranslationError("tuple result expected, got %r" % (val,))
+                    for i, item in enumerate(val.items):
+                        kind, cls = t.locals["%s#%d" % (fr.retvar, i)]
+                        ctx.set("%s#%d" % (fr.retvar, i), ev.coerce(item, kind, cls).term)
+                elif st.value is not None and fr.retvar is not None:
                     val = ev.ev(st.value, ctx, fr)
                     kind, cls = t.locals[fr.retvar]
                     ctx.set(fr.retvar, ev.coerce(val, kind, cls).term)
